@@ -12,7 +12,9 @@ import (
 //
 //	manifest  ::= namespaces{2..4} × decl* × resource*            packageRoot fixed
 //	namespace graph ::= DAG | DAG + one closed two-namespace cycle (two records nothing else refers to, reaching
-//	              equally named types of both namespaces) | wild (references in any direction; reaches the recorded
+//	              equally named types of both namespaces) | DAG + one cycle closed through a THIRD type (thirdtype.go:
+//	              ns1.A -> ns2.B -> ns1.C, nothing refers back to A; no two types refer to each other, yet the
+//	              packages import each other) | wild (references in any direction; reaches the recorded
 //	              defects C12-cyclic-flagging-order / C12-package-cycle-undetected, tagged wild-references)
 //	decl      ::= record | enum | fixed | typeref | union | complexKey
 //	record    ::= includes (none | one | two, chains allowed; no diamonds: see probe include-diamond) × field{1..5}
@@ -58,6 +60,7 @@ type gen struct {
 	nss      []string
 	wild     bool // references between namespaces in any direction (reaches recorded generator defects)
 	clean    bool // namespace DAG plus one closed two-namespace cycle added at the end
+	third    bool // namespace DAG plus one cycle closed through a third type added at the end (thirdtype.go)
 	core     map[Ident]bool
 	full     bool // the coverage manifest: every alternative taken at least once
 	nCustom  int
@@ -723,7 +726,13 @@ func tyClass(m *Manifest, t Ty) string {
 // ---- whole manifests
 
 // Generate builds one manifest. full: the coverage manifest (every alternative at least once).
-func Generate(rng *rand.Rand, full bool) *Manifest {
+func Generate(rng *rand.Rand, full bool) *Manifest { return generate(rng, full, false) }
+
+// GenerateThird builds one manifest of the same grammar whose namespace graph is a DAG plus one cycle that is
+// closed through a third type (see thirdtype.go).
+func GenerateThird(rng *rand.Rand) *Manifest { return generate(rng, false, true) }
+
+func generate(rng *rand.Rand, full, third bool) *Manifest {
 	g := &gen{rng: rng, m: &Manifest{PackageRoot: packageRoot}, rank: map[Ident]int{}, full: full}
 	nNS := 2 + rng.Intn(3)
 	if full {
@@ -736,6 +745,8 @@ func Generate(rng *rand.Rand, full bool) *Manifest {
 		g.nss = []string{"alpha", "alpha.beta", "delta.internal.xtra", "zetaCase"}
 	}
 	switch x := rng.Intn(100); {
+	case third:
+		g.third = true
 	case full || x < 45:
 		g.clean = true
 	case x < 65:
@@ -867,6 +878,9 @@ func Generate(rng *rand.Rand, full bool) *Manifest {
 	}
 	if g.clean {
 		g.cleanCycle()
+	}
+	if g.third {
+		g.thirdCycle()
 	}
 	// resources
 	kinds := []string{"collection-prim", "collection-typeref", "collection-complex", "simple", "actionSet"}
